@@ -17,7 +17,7 @@ func init() {
 			"Added after blind round 8: replay mirrors the live apply: MemTable.ProcessWALEntry is evaluated for every entry type the log accepts — put → Put, delete → Delete, merge → no effect, and none of them fails. " +
 			"Added after blind round 9: wal.OpenReader fails only behind a failed system call (a size or content test there bypasses the replay loop's damage classes and sends recovery to its give-up arm); the temporary name a table is written under does not carry an extension the table loaders select (a crash between create and rename must not leave something the next open tries to load).",
 		NotDecided: "the state at arbitrary stop instants, torn writes, directory fsync, repeated crash/recover cycles — all need execution under fault injection.",
-		Rules:      []func(*Ctx, *Reporter){ruleStWriteAhead, ruleWalSyncBeforeAck, ruleStRotation, ruleStRecovery, ruleSstFinish, ruleDestructiveOps, ruleStFlushPublish, ruleReuseValidatesTail, ruleWalBatch, ruleWalFragmentation, ruleRecoveryLastTableMutable, ruleWalFileWriters, ruleWalErrorClasses, subRules(ruleLayerOrder, "newest-is-last"), ruleRecoveryLimitsAreConfigured, ruleReplayMirrorsLiveApply, ruleLogOpenFailsOnlyOnIO, ruleTempNamesInvisibleToLoaders},
+		Rules:      []func(*Ctx, *Reporter){ruleStWriteAhead, ruleWalSyncBeforeAck, ruleStRotation, ruleStRecovery, ruleSstFinish, ruleDestructiveOps, ruleStFlushPublish, ruleReuseValidatesTail, ruleWalBatch, ruleWalFragmentation, ruleRecoveryLastTableMutable, ruleWalFileWriters, ruleWalErrorClasses, subRules(ruleLayerOrder, "newest-is-last"), ruleRecoveryLimitsAreConfigured, ruleReplayMirrorsLiveApply, ruleLogOpenFailsOnlyOnIO, ruleTempNamesInvisibleToLoaders, ruleLoaderLoadsEveryTable},
 	})
 	register(&PropertyDef{
 		ID: "C03",
@@ -32,7 +32,7 @@ func init() {
 			"Added after blind round 8: the merging iterator's Next advances children with their own Next only (no Seek to a computed successor key). " +
 			"Added after blind round 9: Value() copies keep nil nil and empty empty (nil is the deletion marker below the merge); iterators below the merging layer position and step without looking at deletion markers.",
 		NotDecided: "atomicity across a crash (the log format has no batch frame: a torn batch cannot be recognised at replay — design remark, needs a crash to observe); concurrent-reader interleavings.",
-		Rules:      []func(*Ctx, *Reporter){ruleTxBufferIsolation, ruleTxApplyInside, ruleStSingleWriter, ruleStEffectOnce, ruleWalBatch, ruleTxBufferCapture, ruleTxRollbackClears, ruleTxOpsBuffered, ruleReuseValidatesTail, ruleWalFileWriters, ruleBufferViewsFollowMap, ruleBatchFrame, ruleAccessorsReturnCopies, ruleSealOnlyWhenReplaced, ruleClosedMeansClosed, ruleMergeNextStepsOnly, ruleValueWrappersKeepNil, ruleSourcesDoNotHideTombstones},
+		Rules:      []func(*Ctx, *Reporter){ruleTxBufferIsolation, ruleTxApplyInside, ruleStSingleWriter, ruleStEffectOnce, ruleWalBatch, ruleTxBufferCapture, ruleTxRollbackClears, ruleTxOpsBuffered, ruleReuseValidatesTail, ruleWalFileWriters, ruleBufferViewsFollowMap, ruleBatchFrame, ruleAccessorsReturnCopies, ruleSealOnlyWhenReplaced, ruleClosedMeansClosed, ruleMergeNextStepsOnly, ruleValueWrappersKeepNil, ruleSourcesDoNotHideTombstones, ruleMemTablePutAlwaysInserts, subRules(ruleC16Who, "storage-mutator-callers")},
 	})
 	register(&PropertyDef{
 		ID: "C06",
@@ -46,7 +46,7 @@ func init() {
 			"Added after blind round 8: every exit of MemTablePool.Put/Delete passes MemTable.Put/Delete (no 'redundant write' shortcut in the pool). " +
 			"Added after blind round 9: every answering exit of EngineFacade.Get / IsDeleted passes a storage lookup made by this invocation, directly or in a helper on every path — not inside a function literal that a once/coalescing/memo object decides to run.",
 		NotDecided: "everything else: real-time order, stale reads across rotation, all schedules with background flush/compaction.",
-		Rules:      []func(*Ctx, *Reporter){ruleStSingleWriter, ruleStEffectOnce, ruleStStamps, ruleWalRotatingNoEffect, ruleStWalPointer, ruleLayersLeaveOnly, ruleStRotationSeqOnly, ruleWalStatusUnderLock, ruleStWriteAhead, subRules(ruleMemImmutableFields, "entry-copies"), ruleGetNextSequenceAlwaysAnswers, subRules(ruleMemFind, "find-selection-table"), rulePoolWritesReachTable, ruleFacadeReadsStorageEveryTime},
+		Rules:      []func(*Ctx, *Reporter){ruleStSingleWriter, ruleStEffectOnce, ruleStStamps, ruleWalRotatingNoEffect, ruleStWalPointer, ruleLayersLeaveOnly, ruleStRotationSeqOnly, ruleWalStatusUnderLock, ruleStWriteAhead, subRules(ruleMemImmutableFields, "entry-copies"), ruleGetNextSequenceAlwaysAnswers, subRules(ruleMemFind, "find-selection-table"), rulePoolWritesReachTable, ruleFacadeReadsStorageEveryTime, ruleMemTablePutAlwaysInserts, ruleFacadeErrorMeansNoEffect},
 	})
 	register(&PropertyDef{
 		ID: "C08",
@@ -62,7 +62,7 @@ func init() {
 			"Added after blind round 8: the replay rule of C02 (a replay that fails on a legal entry type sends recovery down the arm that restarts the numbering). " +
 			"Added after blind round 9: one lock is held exclusively at every call of storage.Manager.rotateWAL (two overlapping rotations seed two logs from the same counter; repaired in 1685eec); the only way past the store in WAL.UpdateNextSequence is 'not larger than the counter'.",
 		NotDecided: "the actual numbers in a log directory after arbitrary histories; interactions between WAL retention and sequence numbers stored in SSTables.",
-		Rules:      []func(*Ctx, *Reporter){ruleWalMonotone, ruleStRotationSeqOnly, ruleStRecovery, ruleStStamps, ruleWalStatusUnderLock, ruleWalCounterUnderLock, ruleExplicitSeqBelowCounter, ruleLogExistsBeforeRecovery, ruleReportedSeqMonotone, subRules(ruleRetention, "retention-spares-current-log"), subRules(ruleReplCursorWriters, "cursor-writers"), ruleGetNextSequenceAlwaysAnswers, ruleReplayMirrorsLiveApply, ruleRotationsAreSerialised, ruleHandOverAlwaysTaken},
+		Rules:      []func(*Ctx, *Reporter){ruleWalMonotone, ruleStRotationSeqOnly, ruleStRecovery, ruleStStamps, ruleWalStatusUnderLock, ruleWalCounterUnderLock, ruleExplicitSeqBelowCounter, ruleLogExistsBeforeRecovery, ruleReportedSeqMonotone, subRules(ruleRetention, "retention-spares-current-log"), subRules(ruleReplCursorWriters, "cursor-writers"), ruleGetNextSequenceAlwaysAnswers, ruleReplayMirrorsLiveApply, ruleRotationsAreSerialised, ruleHandOverAlwaysTaken, ruleRetentionCallers},
 	})
 }
 
@@ -116,7 +116,7 @@ func init() {
 			"Added after blind round 8: the block fetcher accepts every block size the writer can produce (no constant cap on a failing exit). " +
 			"Added after blind round 9: the pool-write rule of C06 and the selection comparator of C12 are listed here too (a tombstone that is not inserted, a newer file moved below an older one).",
 		NotDecided: "that the bytes returned equal the bytes put for every program (values); block/index seek landing inside SSTables (value-level binary search — the pinned tree gets this wrong, declared under C11); effects of memtable-size configurations.",
-		Rules:      []func(*Ctx, *Reporter){ruleLayerOrder, ruleTombstoneShortCircuit, ruleMemComparator, ruleMemFind, ruleMemInsert, ruleFlushRules, ruleStStamps, ruleEmptyNotDeleted, ruleTombstoneMarker, ruleRecencyAtLoad, ruleTxOpsBuffered, ruleWalNoBufferDrop, ruleWalFragmentation, ruleSortKeysFromSortedSlice, ruleMemTableGetTable, ruleRecoveryLastTableMutable, ruleComparatorNoSubtraction, ruleFlushKeepsNewest, ruleDeltaBaseIsPredecessor, ruleRecoveryLimitsAreConfigured, ruleNoCapOnBlockSize, rulePoolWritesReachTable, ruleSelectionTakesOldest},
+		Rules:      []func(*Ctx, *Reporter){ruleLayerOrder, ruleTombstoneShortCircuit, ruleMemComparator, ruleMemFind, ruleMemInsert, ruleFlushRules, ruleStStamps, ruleEmptyNotDeleted, ruleTombstoneMarker, ruleRecencyAtLoad, ruleTxOpsBuffered, ruleWalNoBufferDrop, ruleWalFragmentation, ruleSortKeysFromSortedSlice, ruleMemTableGetTable, ruleRecoveryLastTableMutable, ruleComparatorNoSubtraction, ruleFlushKeepsNewest, ruleDeltaBaseIsPredecessor, ruleRecoveryLimitsAreConfigured, ruleNoCapOnBlockSize, rulePoolWritesReachTable, ruleSelectionTakesOldest, ruleLoaderLoadsEveryTable, ruleMemTablePutAlwaysInserts},
 	})
 	register(&PropertyDef{
 		ID: "C05",
@@ -132,7 +132,7 @@ func init() {
 			"Added after blind round 8: the buffer-seek rule; sstable.Iterator positions its index cursor before reading it in seekToFirst/SeekToLast/Seek; FilteredIterator.SeekToLast's fallback scan runs to the end of the inner iterator; the merge-next rule of C03. " +
 			"Added after blind round 9: Value() copies keep nil nil; sources hand tombstones to the merge (no positioning function of a memtable, table, block, buffer, bounding or filtering iterator asks IsTombstone or reads a delete flag).",
 		NotDecided: "exactness of the key set for all data sets, seek landing inside SSTable blocks (see C11), scans concurrent with writers beyond the snapshot rule.",
-		Rules:      []func(*Ctx, *Reporter){ruleSourceOrder, ruleMergePolicy, ruleBounds, ruleFilter, ruleScanConsumers, ruleMemVisibility, ruleTxOwnWrites, ruleCompositePositionsEveryChild, ruleMemSeekToLastNewest, ruleScanSourcesComplete, ruleAdapterSeekAlwaysSeeks, ruleBufferSeekStateless, ruleTableIteratorRewindsIndex, ruleFilteredSeekToLastScansAll, ruleMergeNextStepsOnly, ruleValueWrappersKeepNil, ruleSourcesDoNotHideTombstones},
+		Rules:      []func(*Ctx, *Reporter){ruleSourceOrder, ruleMergePolicy, ruleBounds, ruleFilter, ruleScanConsumers, ruleMemVisibility, ruleTxOwnWrites, ruleCompositePositionsEveryChild, ruleMemSeekToLastNewest, ruleScanSourcesComplete, ruleAdapterSeekAlwaysSeeks, ruleBufferSeekStateless, ruleTableIteratorRewindsIndex, ruleFilteredSeekToLastScansAll, ruleMergeNextStepsOnly, ruleValueWrappersKeepNil, ruleSourcesDoNotHideTombstones, ruleNoCapOnLocatorSize},
 	})
 }
 
